@@ -127,17 +127,17 @@ def run_speaker(run, invs, kf_invs=None, design=design_mech, policy=False, colli
             kcfg = "SpeakerKF_%s_%s.cfg" % (run.prop, g)
             v.write_cfg(run.sc, kcfg, TRACE_CFG % {"g": g, "invs": "\n".join("  " + x for x in kf_invs)})
         if rg in (None, g):
-            traces = run.execute("c01", "pkg/server", "^TestVerifC01$", behs, tag="speaker-" + g)
+            traces = run.execute("c01", "pkg/server", "^TestVerifC01$", behs, tag="speaker-" + g, timeout=420)
             run.validate("SpeakerTrace", cfg, traces, behs, known_cfg=kcfg, group=g)
         if pairs and g in pairs and rg in (None, g + "-pairs"):
             pb = [run.replay["behaviour"]] if run.replay else gen_pairs(run, g, pairs[g])
-            traces = run.execute("c01", "pkg/server", "^TestVerifC01$", pb, tag="speaker-%s-pairs" % g)
+            traces = run.execute("c01", "pkg/server", "^TestVerifC01$", pb, tag="speaker-%s-pairs" % g, timeout=420)
             run.validate("SpeakerTrace", cfg, traces, pb, known_cfg=kcfg, group=g + "-pairs")
             run.extra["policy_pair_schedules"] = run.extra.get("policy_pair_schedules", 0) + len(pb)
         if collide and rg in (None, g + "-collide"):
             # the same schedules with every prefix of a table in ONE hash bucket (hook VerifKeyHook of
             # internal/pkg/table): the collision chains are walked by every insert, delete and lookup
             traces = run.execute("c01", "pkg/server", "^TestVerifC01$", behs, tag="speaker-%s-collide" % g,
-                                 env={"VERIF_COLLIDE": 1})
+                                 env={"VERIF_COLLIDE": 1}, timeout=420)
             run.validate("SpeakerTrace", cfg, traces, behs, known_cfg=kcfg, group=g + "-collide")
             run.extra["collide_traces"] = run.extra.get("collide_traces", 0) + len(traces)
